@@ -965,3 +965,181 @@ pub async fn run_answered_with_error() {
     }
     let _ = net;
 }
+
+// ---------------------------------------------------------------------------------------
+// The listener side: an application that is waiting in SessionAcceptor::accept, in
+// LinkAcceptor::accept or in recv when the peer closes the connection or ends the session. The
+// waiting call completes, names what stopped, and carries the peer's error when there is one; the
+// connection handle reports the peer's close.
+
+pub async fn run_peer_initiated_listener() {
+    let pending = choice(3); // 0 session accept, 1 link accept, 2 recv
+    let kill_close = pending == 0 || choice(2) == 0;
+    let with_error = choice(3) != 0;
+    let lcfg = EndpointCfg::default_cfg();
+    let (nab, nba, nd) = world::draw_net(false);
+    sim::set_config(format!(
+        "variant=peer-initiated-vs-listener pending={} kill={} with-error={} {}",
+        ["session-accept", "link-accept", "recv"][pending as usize],
+        if kill_close { "close" } else { "end" },
+        with_error,
+        nd
+    ));
+    sim::mark_nontrivial();
+    sim::set_panic_is_violation(true);
+    let pvl = match peer::peer_vs_listener(&lcfg, peer::open("peer", Some(65536), Some(255), None), nab, nba, Models::none()).await {
+        Some(x) => x,
+        None => return,
+    };
+    let peer::ListenerVsPeer { listener, mut peer, net, .. } = pvl;
+    let waiting: Slot<()> = Slot::new();
+    let result: Slot<String> = Slot::new();
+    let closed: Slot<String> = Slot::new();
+    {
+        let (waiting, result, closed) = (waiting.clone(), result.clone(), closed.clone());
+        sim::spawn(
+            "listener-app",
+            sim::in_group(2, async move {
+                let mut listener = listener;
+                let acc = SessionAcceptor::new();
+                if pending == 0 {
+                    waiting.put(());
+                    let r = sim::op("listener: session accept (pending when the peer closes)", acc.accept(&mut listener)).await;
+                    match r {
+                        Some(r) => result.put(format!("{:?}", r.map(|_| ()))),
+                        None => return,
+                    }
+                } else {
+                    let mut sess = match sim::op("listener: session accept", acc.accept(&mut listener)).await {
+                        Some(Ok(s)) => s,
+                        Some(Err(e)) => {
+                            result.put(format!("session accept failed early: {:?}", e));
+                            return;
+                        }
+                        None => return,
+                    };
+                    let la = LinkAcceptor::new();
+                    if pending == 1 {
+                        waiting.put(());
+                        let r = sim::op("listener: link accept (pending when the peer stops)", la.accept(&mut sess)).await;
+                        match r {
+                            Some(r) => result.put(format!("{:?}", r.map(|_| ()))),
+                            None => return,
+                        }
+                    } else {
+                        let mut rcv = match sim::op("listener: link accept", la.accept(&mut sess)).await {
+                            Some(Ok(LinkEndpoint::Receiver(r))) => r,
+                            Some(other) => {
+                                result.put(format!("link accept gave {:?}", other.map(|_| ())));
+                                return;
+                            }
+                            None => return,
+                        };
+                        waiting.put(());
+                        let r = sim::op("listener: recv (pending when the peer stops)", rcv.recv::<Body<Value>>()).await;
+                        match r {
+                            Some(r) => result.put(format!("{:?}", r.map(|_| ()))),
+                            None => return,
+                        }
+                        let _ = sim::op("listener: receiver close", rcv.close()).await;
+                    }
+                    let _ = sim::op("listener: session on_end", sess.on_end()).await;
+                }
+                if let Some(r) = sim::op("listener: connection on_close", listener.on_close()).await {
+                    closed.put(format!("{:?}", r));
+                }
+            }),
+        );
+    }
+    let ps = PeerSession::new(2, 0, 5000, 5000);
+    if pending > 0 {
+        peer.send(ps.channel, &peer::begin(None, 0, 5000, 5000)).await;
+        if peer.expect(wire::BEGIN).await.is_none() {
+            sim::violation("begin-failed", "the listener did not answer begin".into());
+            return;
+        }
+    }
+    if pending == 2 {
+        peer.send(ps.channel, &peer::attach(&AttachArgs::sender("L", 1))).await;
+        if peer.expect(wire::ATTACH).await.is_none() {
+            sim::violation("attach-failed", "the listener did not answer attach".into());
+            return;
+        }
+    }
+    if sim::op("the application is waiting", waiting.take()).await.is_none() {
+        return;
+    }
+    if !peer::settle(&mut peer, &net, |_| {}).await {
+        return;
+    }
+    // the peer stops
+    let (cond, desc) = if kill_close { ("amqp:connection:forced", "closed-by-the-peer") } else { ("amqp:session:window-violation", "ended-by-the-peer") };
+    let err = if with_error { Some(peer::error(cond, Some(desc))) } else { None };
+    if kill_close {
+        peer.send(0, &peer::close(err)).await;
+        sim::fault("peer-closes-under-a-pending-listener-call");
+    } else {
+        peer.send(ps.channel, &peer::end(err)).await;
+        sim::fault("peer-ends-under-a-pending-listener-call");
+    }
+    let serve = async {
+        // answer what the listener still sends; end the stream after its close
+        let deadline = tokio::time::Instant::now() + std::time::Duration::from_secs(120);
+        let mut sent_close = kill_close;
+        while tokio::time::Instant::now() < deadline && !peer.eof {
+            for f in peer.drain_for(50).await {
+                if f.code == wire::CLOSE {
+                    if !sent_close {
+                        peer.send(0, &peer::close(None)).await;
+                        sent_close = true;
+                    }
+                    peer.shutdown().await;
+                    return;
+                }
+            }
+            if !kill_close && result_seen(&result) && !sent_close {
+                // the session is over: the peer closes the connection now
+                peer.send(0, &peer::close(None)).await;
+                sent_close = true;
+            }
+        }
+    };
+    fn result_seen(r: &Slot<String>) -> bool {
+        // (peek without taking)
+        match r.try_take() {
+            Some(v) => {
+                r.put(v);
+                true
+            }
+            None => false,
+        }
+    }
+    let wait = async {
+        let r = sim::op("the waiting call completes", result.take()).await?;
+        result.put(r.clone());
+        let c = sim::op("listener connection on_close", closed.take()).await?;
+        Some((r, c))
+    };
+    let (rc, _) = world::join2(wait, serve).await;
+    let (r, c) = match rc {
+        Some(x) => x,
+        None => return,
+    };
+    let what = ["SessionAcceptor::accept", "LinkAcceptor::accept", "recv"][pending as usize];
+    if r.starts_with("Ok") {
+        sim::violation("operation-succeeded-after-peer-stop", format!("the peer {} while {} was pending; it returned {}", if kill_close { "closed the connection" } else { "ended the session" }, what, r));
+        return;
+    }
+    if with_error && !(r.contains(desc) || r.contains("Forced") && kill_close || r.contains("WindowViolation") && !kill_close) {
+        sim::violation(
+            "peer-error-not-carried",
+            format!("the peer {} with {} '{}' while {} was pending on the listener side; the call returned {}", if kill_close { "closed the connection" } else { "ended the session" }, cond, desc, what, r),
+        );
+        return;
+    }
+    if kill_close && with_error && !(c.contains(desc) || c.contains("Forced")) {
+        sim::violation("peer-error-not-carried", format!("the peer closed the connection with {} '{}'; the listener's on_close returned {}", cond, desc, c));
+        return;
+    }
+    sim::probe("pending-listener-call-failed-with-the-peers-reason");
+}
